@@ -1,13 +1,17 @@
 """C06 - retries are bounded and every query terminates (channel simulator family)."""
 import simlib
 import simprops
+import os
+
 import vlib
+from props import C06a as _a
 
 ID = "C06"
-IMPORTS = ["CaresProps.C06"]
-DRIVER_MODULES = ["Driver.SimMain"]
-LEAN_TARGETS = ["CaresProps.C06", "driver_sim"]
-THEOREMS = vlib.discover_theorems("CaresProps/C06.lean")
+IMPORTS = [m for m in ("CaresProps.C06", "CaresProps.C06a") if os.path.exists(os.path.join(vlib.LEAN, *m.split(".")) + ".lean")]
+GENERATORS = _a.GENERATORS
+DRIVER_MODULES = ["Driver.SimMain", "Driver.ProtoMain"]
+LEAN_TARGETS = IMPORTS + ["driver_sim", "driver_proto"]
+THEOREMS = vlib.discover_theorems("CaresProps/C06.lean") + _a.THEOREMS
 TRUSTED = [
     "Lean 4.33.0 kernel; axioms allowed: propext, Classical.choice, Quot.sound",
     "hand-written channel model lean/CaresModel/Chan/{Types,Client,Core}.lean (exec: request life cycle of ares_send.c, "
@@ -17,6 +21,7 @@ TRUSTED = [
     "compiled Lean driver, event lines diffed",
     "harness/h_sim.c (virtual socket layer, virtual server, callback reactions), tools/simlib.py (scenario generator), "
     "tools/simprops.py (direct property monitors), tools/runner.py",
+    "arithmetic part (ares_metrics.c, ares_calc_query_timeout): model CaresModel/Proto/Timeout.lean with an exact binary32 jitter model; tied by a probe that evaluates the static function of the tree under check on 400 inputs re-evaluated in the kernel (calc_samples_agree) and by the h_proto timeout stream",
     "free choices of the implementation (query ids, 0x20 case, cookie bytes, rotation pick, probe lottery, jitter) are "
     "observed from the trace, checked against the set the policy allows, and fed to the model; theorems quantify over all of them",
     "Lean compiler (driver_sim is the compiled form of the definitions the kernel checked)",
@@ -32,7 +37,7 @@ RULE = ("scenarios are generated from VERIF_SEED by tools/simlib.py (channel opt
 EXPLANATION = 'Bounds on frames written per query and on deadlines, progress of timeout processing, over the channel model; correspondence with long retry sequences.'
 
 
-STREAMS = [
+STREAMS = _a.STREAMS + [
     simlib.sim_stream("retries", {"tries": [1, 2, 5, 9, 20], "nservers": [1, 2, 3, 5], "timeouts": [250, 300, 1000, 5000, 20000],
                                   "maxtimeout_prob": 0.5, "reply_kinds": [("servfail", 20), ("refused", 8), ("notimp", 4), ("tc", 8),
                                   ("noerror", 10), ("garbage", 4), ("formerr", 3), ("nxdomain", 3)], "sockfail_w": 0.06},
